@@ -797,6 +797,12 @@ func HandleStore(deps ServerDeps, conn net.Conn, tag string, parts []string, sta
 		return
 	}
 
+	// RFC 3501: the flags of a mailbox selected with EXAMINE cannot be changed
+	if state.ReadOnly {
+		deps.SendResponse(conn, fmt.Sprintf("%s NO [READ-ONLY] Mailbox is read-only", tag))
+		return
+	}
+
 	// Parse command: STORE sequence data-item value
 	if len(parts) < 4 {
 		deps.SendResponse(conn, fmt.Sprintf("%s BAD STORE requires sequence set, data item, and value", tag))
@@ -1550,8 +1556,11 @@ func HandleExpunge(deps ServerDeps, conn net.Conn, tag string, state *models.Cli
 	// messages were deleted
 
 	// Important: Per RFC 3501, if mailbox is read-only (selected with EXAMINE),
-	// EXPUNGE should return NO
-	// TODO: Add ReadOnly field to ClientState to properly handle EXAMINE
+	// EXPUNGE returns NO
+	if state.ReadOnly {
+		deps.SendResponse(conn, fmt.Sprintf("%s NO [READ-ONLY] Mailbox is read-only", tag))
+		return
+	}
 
 	// Get user database
 	userDB, _, err := deps.GetSelectedDB(state)
